@@ -519,9 +519,11 @@ class DataFrameSchemaBackend(PolarsSchemaBackend):
             else:
                 for col_schema in schema.columns.values():
                     if (
-                        not col_schema.required
+                        not col_schema.regex
                         and col_schema.name not in lf_columns
                     ):
+                        # absent columns cannot be coerced, a missing required
+                        # column is reported by check_column_presence
                         continue
 
                     if schema.coerce or col_schema.coerce:
@@ -570,10 +572,15 @@ class DataFrameSchemaBackend(PolarsSchemaBackend):
     def set_default(self, check_obj: pl.LazyFrame, schema) -> pl.LazyFrame:
         """Set default values for columns with missing values."""
 
+        lf_columns = get_lazyframe_column_names(check_obj)
         for col_schema in [
             s
             for s in schema.columns.values()
-            if hasattr(s, "default") and s.default is not None
+            if hasattr(s, "default")
+            and s.default is not None
+            # absent columns cannot be filled, a missing required column is
+            # reported by check_column_presence
+            and (s.regex or s.name in lf_columns)
         ]:
             backend = col_schema.get_backend(check_obj)
             check_obj = backend.set_default(check_obj, col_schema)
